@@ -128,7 +128,8 @@ def witnesses(planes, eps=1e-3, extra_box=10.0, prism=True):
             mids = [0.0173]
         else:
             mids = [u[0] - extra_box] + [(x + y) / 2 for x, y in zip(u, u[1:])] + [u[-1] + extra_box]
-        W = np.array([w[0] * e1 + w[1] * e2 + t * axis for t in mids for w in W2])
+        base = W2[:, :1] * e1 + W2[:, 1:2] * e2                        # (n2, 3)
+        W = (base[None, :, :] + np.array(mids)[:, None, None] * axis[None, None, :]).reshape(-1, 3)
         f = W @ N.T + D
         return W[(np.abs(f) > CLEAR).all(1)]
     W = []
